@@ -22,6 +22,6 @@ r1=$(go test -vet=off -count=1 -run "$tests" $dirs 2>&1 | tail -3 | tr '\n' ' ')
 echo "WITH change:    $r1"
 # remove demo, run the suite
 for f in $d/demo/*_test.go; do pkg=$(grep -m1 '^package ' $f | awk '{print $2}'); pkg=${pkg%_test}; rm -f $w/$pkg/$(basename $f); done
-suite=$(go test -vet=off -count=1 ./... 2>&1 | grep -v "no test files" | grep -v "^ok" | grep -E "^(FAIL|--- FAIL)" | grep -v "TestMisc" | grep -v "sts/http" | tr '\n' ' ')
+suite=$(go test -vet=off -count=1 ./... 2>&1 | grep -v "no test files" | grep -v "^ok" | grep -E "^(FAIL\s|--- FAIL)" | grep -v "TestMisc" | grep -v "sts/http" | tr '\n' ' ')
 echo "suite failures other than http::TestMisc: [${suite}]"
 git checkout -q -- . ; git clean -fdq
